@@ -20,3 +20,19 @@ macro_rules! reach {
         kani::cover!(true, "reach-end");
     };
 }
+
+// `proof_h!{..}`: as `proof!`, with BLAKE3 replaced by the transcript model (DESIGN R2) under Kani.
+// Natively (replay) nothing is stubbed: the real BLAKE3 runs.
+#[allow(unused_macros)]
+macro_rules! proof_h {
+    ($(#[$m:meta])* fn $name:ident() $body:block) => {
+        #[cfg_attr(kani, kani::proof)]
+        #[cfg_attr(kani, kani::stub(blake3::Hasher::new, crate::hashmodel::hasher_new))]
+        #[cfg_attr(kani, kani::stub(blake3::Hasher::update, crate::hashmodel::hasher_update))]
+        #[cfg_attr(kani, kani::stub(blake3::Hasher::finalize, crate::hashmodel::hasher_finalize))]
+        #[cfg_attr(kani, kani::stub(blake3::hash, crate::hashmodel::hash))]
+        $(#[$m])*
+        #[allow(clippy::all, unused)]
+        pub fn $name() $body
+    };
+}
